@@ -691,16 +691,12 @@ pub fn gen_scenarios(seed: u64, tier: &str) -> Vec<Scenario> {
             let v0 = b"AAAA".to_vec();
             let (v1, v2) = (b"BBBB".to_vec(), b"CCCC".to_vec());
             let init = vec![(shared.to_string(), v0.clone())];
-            let first = match id % 3 {
-                0 => Req::Del { path: shared.to_string(), exp: Some(b"zzzz".to_vec()) },
-                1 => Req::Get { path: shared.to_string() },
-                _ => Req::Put { path: shared.to_string(), exp: None, decl: b"DDDD".to_vec(), len: 4, pieces: vec![b"DDDD".to_vec()] },
-            };
+            let first = if (id / 10) % 2 == 0 { Req::Del { path: shared.to_string(), exp: Some(b"zzzz".to_vec()) } } else { Req::Get { path: shared.to_string() } };
             let p0 = vec![first, Req::Put { path: shared.to_string(), exp: Some(v0.clone()), decl: v2.clone(), len: 4, pieces: vec![v2.clone()] }];
             let p1 = vec![Req::Put { path: shared.to_string(), exp: Some(v0.clone()), decl: v1.clone(), len: 4, pieces: vec![v1.clone()] }];
-            // p0 finishes its first request (its next pending gate is the staging open of its second one), p1 runs to completion
-            let mut policy = vec![Pol::StepUntil(0, "openw".to_string())];
-            if id % 3 == 2 { policy.push(Pol::Step(0)); policy.push(Pol::StepUntil(0, "openw".to_string())); }
+            // p0 answers its first request completely (its next pending gate is the read of the next frame), then p1 runs to
+            // completion, then p0 goes on
+            let mut policy = vec![Pol::StepUntil(0, "read0".to_string())];
             policy.extend((0..60).map(|_| Pol::Step(1)));
             out.push(Scenario { id, init, progs: vec![p0, p1], policy, class: "directed:seen-then-foreign-commit-same-length".into(), pidns: false });
             continue;
